@@ -132,6 +132,9 @@ def run(chk):
                 if e:
                     texts.append(e[0])
             texts += gen_check.broken_variants(c["script"], rng, 1)
+        # boundary numbers of error diagnostics (an exit status keeps 8 bits)
+        for k in (1, 2, 255, 256, 257, 512, 1024):
+            texts.append("".join('set_tx_meta("k%d", $u%d)\n' % (j % 7, j) for j in range(k)))
         texts = [t for t in texts if "\x00" not in t]
         gos2, _ = A.analyze_both([{"script": t} for t in texts]) if False else (runner.run_go(
             [{"id": i, "op": "analyze", "script": t} for i, t in enumerate(texts)]), None)
